@@ -213,6 +213,7 @@ Definition dest_ok (env : tenv) (t : tid) (ty : sfield -> tid) (v0 : val) (f : s
 
 Lemma scan_targets_spec env t ty v0 outputs : forall suffix pre seen used acc,
   outputs = map LField (pre ++ suffix) ->
+  (N.of_nat (length outputs) <= max_int)%N ->
   Forall (dest_ok env t ty v0) suffix ->
   exists seen' used',
     scan_targets env outputs [(t, v0)]
@@ -221,13 +222,14 @@ Lemma scan_targets_spec env t ty v0 outputs : forall suffix pre seen used acc,
     (forall i, In i seen \/ (length pre <= i < length pre + length suffix) -> In i seen') /\
     (forall u, In u used \/ (suffix <> [] /\ u = t) -> In u used').
 Proof.
-  induction suffix as [|f rest IH]; intros pre seen used acc E F.
+  induction suffix as [|f rest IH]; intros pre seen used acc E B F.
   - exists seen, used. cbn [length seq map scan_targets]. rewrite app_nil_r.
     split; [reflexivity|]. split.
     + intros i [H|H]; [exact H|lia].
     + intros u [H|[H _]]; [exact H|congruence].
   - inversion F as [|? ? [Hs [Hv Ht]] Frest]; subst outputs.
-    cbn [length seq map scan_targets]. rewrite marker_roundtrip.
+    cbn [length seq map scan_targets]. rewrite marker_roundtrip
+      by (rewrite map_length, app_length in B; cbn [length] in B; lia).
     assert (N : nth_error (map LField (pre ++ f :: rest)) (length pre) = Some (LField f)).
     { rewrite nth_error_map, nth_error_app2 by lia. rewrite Nat.sub_diag. reflexivity. }
     rewrite N. cbn [locate_scan_target]. rewrite Hs. cbn [t2v_get]. rewrite Nat.eqb_refl.
@@ -241,6 +243,7 @@ Proof.
     destruct (IH (pre ++ [f]) (length pre :: seen) (sf_struct f :: used)
                  (acc ++ [target_of env t ty f])) as [seen' [used' [R [Sn U]]]].
     { rewrite <- app_assoc. reflexivity. }
+    { exact B. }
     { exact Frest. }
     rewrite app_length in R, Sn. cbn [length] in R, Sn.
     replace (length pre + 1) with (S (length pre)) in R, Sn by lia.
@@ -255,16 +258,16 @@ Qed.
 
 Lemma scan_args_spec env t pt ty v0 ofs :
   t_kind (tget env pt) = KPtr -> t_elem (tget env pt) = t -> t_kind (tget env t) = KStruct ->
-  ofs <> [] -> Forall (dest_ok env t ty v0) ofs ->
+  ofs <> [] -> (N.of_nat (length ofs) <= max_int)%N -> Forall (dest_ok env t ty v0) ofs ->
   scan_args env (map LField ofs) (map marker_name (seq 0 (length ofs))) [AVal pt (VPtr v0)]
   = BOk ([(t, v0)], map (target_of env t ty) ofs).
 Proof.
-  intros Kp Ep Ks NE F. unfold scan_args.
+  intros Kp Ep Ks NE B F. unfold scan_args.
   cbn [validate_outputs validate_value]. rewrite Kp. cbn [bbind]. rewrite Ep, Ks.
   cbn [bbind t2v_get app validate_outputs].
   rewrite !map_length, seq_length, Nat.ltb_irrefl.
   destruct (scan_targets_spec env t ty v0 (map LField ofs) ofs [] [] [] []) as [seen [used [R [Sn U]]]];
-    [reflexivity|exact F|].
+    [reflexivity|rewrite map_length; exact B|exact F|].
   cbn [length app] in R, Sn. rewrite R. cbn [bbind app].
   assert (C1 : forallb (fun i => existsb (Nat.eqb i) seen) (seq 0 (length ofs)) = true).
   { apply forallb_forall. intros i Hi. apply in_seq in Hi. apply existsb_exists.
@@ -297,7 +300,7 @@ Definition divf (f g : sfield) : Prop := diverging (sf_index f) (sf_index g).
    gives a destination whose tagged fields are those of the source. *)
 Lemma scan_row_roundtrip env t pt ty ofs (om : sfield -> bool) v v0 :
   t_kind (tget env pt) = KPtr -> t_elem (tget env pt) = t -> t_kind (tget env t) = KStruct ->
-  ofs <> [] -> pairwise divf ofs ->
+  ofs <> [] -> (N.of_nat (length ofs) <= max_int)%N -> pairwise divf ofs ->
   Forall (dest_ok env t ty v0) ofs ->
   Forall (src_ok env t ty v) ofs ->
   (forall f, In f ofs -> om f = true -> is_zero (fval v f) = true) ->
@@ -307,8 +310,8 @@ Lemma scan_row_roundtrip env t pt ty ofs (om : sfield -> bool) v v0 :
     = (Some [(t, v')], None) /\
     forall f, In f ofs -> field_by_index v' (sf_index f) = field_by_index v (sf_index f).
 Proof.
-  intros Kp Ep Ks NE PW FD FS OM. unfold scan_row.
-  rewrite (scan_args_spec env t pt ty v0 ofs Kp Ep Ks NE FD).
+  intros Kp Ep Ks NE B PW FD FS OM. unfold scan_row.
+  rewrite (scan_args_spec env t pt ty v0 ofs Kp Ep Ks NE B FD).
   set (cl := fun f => if om f then CNull else fcell v f).
   assert (SV : Forall (fun f => scan_value env (ty f) (cl f) = Some (fval v f)) ofs).
   { apply Forall_forall. intros f Hf. rewrite Forall_forall in FS.
